@@ -308,11 +308,118 @@ func scenario(variant, readers int, kinds string, mode string, bound int) runner
 	}
 }
 
+// ---- refilter of a filtered subscription, seen by concurrent readers of its cache -------------------------------
+
+// finst: a ready SubscribeWithFilter node over an idle parent holding a{l=1}, b{l=0}; one goroutine calls
+// Refilter(l=0) then Refilter(Null) (the call is asynchronous: it returns before the filter is applied); readers List
+// the subscription's cache.  Every read must be one of the complete views [a] -> [b] -> [a b], not later than the
+// last Refilter call started, and never backwards per reader ("never a half-applied refilter").
+type finst struct {
+	readers, nreads int
+	started         int
+	reads           []read
+	views           []string
+	done            int
+}
+
+func (in *finst) run() {
+	a := hx.Pod("ns", "a", "1", "l=1")
+	b := hx.Pod("ns", "b", "1", "l=0")
+	in.views = []string{hx.ListString(objs(a)), hx.ListString(objs(b)), hx.ListString(objs(a, b))}
+	root := hx.NewRoot(filter.Null())
+	root.Init(objs(a, b))
+	fs, err := root.Pub.SubscribeWithFilter(hx.MkFilter(2))
+	if err != nil {
+		vs.Fail("subscribe: %v", err)
+		return
+	}
+	<-fs.Ready()
+	go func() {
+		for range fs.Events() {
+		}
+	}()
+	fin := make(chan bool)
+	go func() {
+		for _, f := range []int{3, 0} {
+			vs.Atomic("hist", func() { in.started++ })
+			if err := fs.Refilter(hx.MkFilter(f)); err != nil {
+				vs.Fail("Refilter: %v", err)
+			}
+		}
+		fin <- true
+	}()
+	for r := 0; r < in.readers; r++ {
+		r := r
+		go func() {
+			for i := 0; i < in.nreads; i++ {
+				l, err := fs.Cache().List()
+				if err != nil {
+					vs.Fail("List: %v", err)
+				}
+				vs.Atomic("hist", func() {
+					in.reads = append(in.reads, read{reader: r, kind: "list", t2: in.started, result: hx.ListString(l)})
+				})
+			}
+			fin <- true
+		}()
+	}
+	for i := 0; i < in.readers+1; i++ {
+		<-fin
+		in.done++
+	}
+	root.Stop()
+}
+
+func (in *finst) check(r *vs.Result) []string {
+	var msgs []string
+	if in.done != in.readers+1 {
+		return []string{fmt.Sprintf("hang: only %d of %d drivers finished; blocked: %v", in.done, in.readers+1, r.Blocked)}
+	}
+	last := map[int]int{}
+	for _, rd := range in.reads {
+		match := -1
+		for j := last[rd.reader]; j <= rd.t2 && j < len(in.views); j++ {
+			if in.views[j] == rd.result {
+				match = j
+				break
+			}
+		}
+		if match < 0 {
+			msgs = append(msgs, fmt.Sprintf("half-applied refilter visible | reader %d of a filtered subscription's cache got %s: not one of the complete views %v reachable with %d Refilter calls started (previous read: view %d)", rd.reader, rd.result, in.views, rd.t2, last[rd.reader]))
+			continue
+		}
+		last[rd.reader] = match
+	}
+	return msgs
+}
+
+func (in *finst) outcome() string {
+	var b strings.Builder
+	for _, rd := range in.reads {
+		fmt.Fprintf(&b, "%d=%s;", rd.reader, rd.result)
+	}
+	return b.String()
+}
+
+func fscenario(readers, nreads int, mode string, bound int) runner.Sc {
+	return runner.Sc{
+		Scenario: explore.Scenario{
+			Name: fmt.Sprintf("c15/fsub-refilter/r%d/reads%d/%s%d", readers, nreads, mode, bound), Mode: mode, Bound: bound,
+			Cfg: vs.Config{Timers: vs.TimersIdle, MaxSteps: 200000},
+			New: func() explore.Instance {
+				in := &finst{readers: readers, nreads: nreads}
+				return explore.Instance{Run: in.run, Check: in.check, Outcome: in.outcome}
+			},
+		},
+		Split: true,
+	}
+}
+
 func Property() runner.Property {
 	return runner.Property{
 		ID:    "C15",
 		Level: "model_checking",
-		Rule:  "every interleaving (S1: DFS with happens-before state caching) of 1 writer moving a real _cache through distinguishable complete states via sync/refilter/update and N readers doing List,Get(a),Get(b),List; each read must equal the reference content at some instant between its call and return and never go backwards per reader",
+		Rule:  "every interleaving (S1: DFS with happens-before state caching) of 1 writer moving a real _cache through distinguishable complete states via sync/refilter/update and N readers doing List,Get(a),Get(b),List; each read must equal the reference content at some instant between its call and return and never go backwards per reader; plus a ready filtered subscription refiltered twice (disjoint, then accept-all) under concurrent readers of its cache: every read is one of the complete views",
 		Assumptions: []string{
 			"scheduling points at channel operations suffice (no shared memory besides channels; checked by the completeness scan and the auxiliary -race pass)",
 			"data-race clause of C15 is outside a cooperative scheduler's reach (auxiliary free-running -race pass only)",
@@ -324,7 +431,9 @@ func Property() runner.Property {
 				out = append(out, scenario(v, 2, "list", "S1", 0))
 				out = append(out, scenario(v, 2, "list,geta,getb,list", "S2", 2))
 			}
+			out = append(out, fscenario(1, 2, "S2", 3), fscenario(2, 2, "S2", 3))
 			if tier == "thorough" {
+				out = append(out, fscenario(1, 2, "S1", 0), fscenario(2, 2, "S2", 4), fscenario(3, 2, "S2", 3))
 				for v := 0; v < 3; v++ {
 					s := scenario(v, 2, "list,list", "S1", 0)
 					s.TableBits = 26
